@@ -4,14 +4,16 @@ C04 / C10 — model of the client negotiation state machine of `QXmppOutgoingCli
 base/QXmppStreamManagement.cpp `StreamAckManager`, and the parts of `QXmppClient` /
 `QXmppRosterManager` that react to `connected`).
 
-The model follows the code that exists, including what looks wrong:
-* `handleStream` starts XEP-0078 authentication on a header without `version`, whatever the link;
-* the idle listener answers every `<iq type=get|set>` whatever the link;
-* `handlePacketReceived` replaces a listener that returned `Finished` by the idle one when the variant
-  index did not change — after the XEP-0078 field offer the `NonSaslAuthManager` that has just sent the
-  password is therefore dropped and its result is never seen (legacy authentication cannot complete);
-* `bind2Bound` is cleared only by `openSession`;
-* the see-other-host branch of `_q_socketDisconnected` does not close the session.
+The model follows the code that exists (tree after the fixes e0bbad9, fa0779c, 7771c2d, 7a677f2, e363fe9):
+* `handleStream` starts XEP-0078 authentication on a header without `version` — unless TLS is required and the link is
+  not encrypted: then it warns and disconnects;
+* the idle listener rejects every jabber:client element (iq, message, presence) received on an unencrypted link when TLS is
+  required (`Rejected`: error "Unexpected element received.", stream close, disconnect);
+* after the XEP-0078 field offer the `NonSaslAuthManager` stays the listener (`Accepted`) and waits for the result;
+* `handleStart` clears `bind2Bound`;
+* see-other-host closes the session (if any) and reconnects through a queued call.
+Still true: `handlePacketReceived` replaces a listener that returned `Finished` by the idle one when the variant index
+did not change; `openSession` is not guarded against being entered twice (the Q_ASSERT is compiled out).
 
 `<success/>` of a SCRAM exchange is accepted only with a valid server signature in its data (tree state after the
 "server never proved knowledge of the password" fix); PLAIN and HT accept any `<success/>`.
@@ -158,15 +160,13 @@ def Kind.carriesSecret : Kind → Bool
   | _ => false
 
 inductive Listener
-  | idle | starttls | nonSaslFields
+  | idle | starttls | nonSaslFields | nonSaslResult
   | sasl (m : Used) (fresh : Bool) | saslDead
   | sasl2 (m : Used) (fresh : Bool) | sasl2Dead
   | smResume | smEnable | bind
   deriving DecidableEq, Repr
 
-/-- `hung`: see-other-host was received on a TLS link; `connectToHost` called from inside the `disconnected` slot of the
-QSslSocket leaves it in ConnectingState for ever (observed: TCP connects, `connected` is never emitted) -/
-inductive Conn | disconnected | connecting | connected | hung
+inductive Conn | disconnected | connecting | connected
   deriving DecidableEq, Repr
 
 structure St where
@@ -232,11 +232,13 @@ def closeSession (s : St) : R :=
   ({ s with sessionStarted := false, ackEnabled := false, pendingIq := s.pendingIq - n },
    iqDones n ++ [.sig .disconnected])
 
-/-- `_q_socketDisconnected` (the socket is already gone) -/
+/-- `_q_socketDisconnected` (the socket is already gone).  see-other-host: the session (if any) is closed, then the client
+reconnects through a queued call (`connecting`; the TCP connect is the environment event `socketConnected`) -/
 def onSocketDisconnected (s : St) : R :=
   let s1 := { s with authenticated := false }
   if s1.redirect then
-    ({ s1 with redirect := false, conn := (if s1.encrypted then .hung else .connecting), encrypted := false }, [])
+    let r := if s1.sessionStarted then closeSession s1 else (s1, [])
+    ({ r.1 with redirect := false, conn := .connecting, encrypted := false }, r.2)
   else closeSession s1
 
 /-- `XmppSocket::disconnectFromHost` -/
@@ -282,7 +284,7 @@ def openSession (s : St) : R :=
 
 /-- `handleStart` -/
 def handleStart (s : St) : R :=
-  let s1 := { s with streamIdSet := false, streamVersionSet := false, listener := .idle,
+  let s1 := { s with streamIdSet := false, streamVersionSet := false, listener := .idle, bind2Bound := false,
                      smEnabled := false, smResumed := false }
   (s1, [send s1 .streamOpen])
 
@@ -295,7 +297,10 @@ def handleStream (s : St) (version id : Bool) : R :=
   if s1.streamVersionSet then (s1, [])
   else
     let s2 := { s1 with streamVersionSet := version }
-    if ¬ version ∧ s2.cfg.useNonSasl then startNonSaslAuth s2 else (s2, [])
+    if ¬ version ∧ s2.cfg.useNonSasl then
+      -- a pre-1.0 stream has no STARTTLS: never authenticate in clear if TLS is required
+      (if s2.cfg.tls = .required ∧ ¬ s2.encrypted then disconnectFromHost s2 else startNonSaslAuth s2)
+    else (s2, [])
 
 def mechUsable (s : St) : Mech → Option Used
   | .plain => if s.cfg.plainOk then some .plain else none
@@ -365,8 +370,15 @@ def onSmEnabled (s : St) (resume : Bool) : R :=
 def onSmResumed (s : St) : R :=
   enableAck { s with smResumed := true, smEnabled := true }
 
-/-- the idle listener: `QXmppOutgoingClient::handleElement` -/
-def idleHandle (s : St) : El → R
+/-- jabber:client elements -/
+def El.isStanza : El → Bool
+  | .iq _ => true
+  | .message => true
+  | .presence => true
+  | _ => false
+
+/-- the idle listener after the stanza guard -/
+def idleHandle' (s : St) : El → R
   | .features f => handleFeatures s f
   | .streamError true =>
     -- see-other-host: only the socket is closed
@@ -381,6 +393,11 @@ def idleHandle (s : St) : El → R
   | .presence => (s, [])
   | _ => reject s
 
+/-- the idle listener: `QXmppOutgoingClient::handleElement`.  No stanza is processed over an unencrypted link if TLS is
+required -/
+def idleHandle (s : St) (e : El) : R :=
+  if e.isStanza ∧ ¬ s.encrypted ∧ s.cfg.tls = .required then reject s else idleHandle' s e
+
 def starttlsHandle (s : St) : El → R
   | .proceed true =>
     -- startClientEncryption, handshake succeeds, `encrypted` → new stream
@@ -391,16 +408,32 @@ def starttlsHandle (s : St) : El → R
     (r.1, .sig .error :: r.2)
   | _ => reject s
 
+/-- `NonSaslAuthManager`, waiting for the field offer -/
 def nonSaslHandle (s : St) : El → R
   | .iq (.authFields p d) =>
     if p ∨ d then
       let plain := if p ∧ d then s.cfg.nsPlain else p
-      -- the manager that has just sent the password is replaced by the idle listener (`Finished`, same index)
-      ({ s with listener := .idle }, [send s (.nonSaslAuth plain)])
+      -- the authentication query is started on the same manager, which stays the listener (`Accepted`)
+      ({ s with listener := .nonSaslResult }, [send s (.nonSaslAuth plain)])
     else
       let r := disconnectFromHost s
       ({ r.1 with listener := .idle }, r.2)
   | .iq _ =>
+    let r := disconnectFromHost s
+    ({ r.1 with listener := .idle }, r.2)
+  | _ => reject s
+
+/-- `NonSaslAuthManager`, waiting for the result of the authentication query.  The scripted server echoes the id of the last
+jabber:iq:auth request, so both `authResult` and a repeated field offer carry the id of the query -/
+def nonSaslResultHandle (s : St) : El → R
+  | .iq (.authResult true) =>
+    let r := openSession { s with authenticated := true }
+    ({ r.1 with listener := .idle }, r.2)
+  | .iq (.authFields _ _) =>
+    let r := openSession { s with authenticated := true }
+    ({ r.1 with listener := .idle }, r.2)
+  | .iq _ =>
+    -- error, wrong id or unexpected type: warning, disconnect
     let r := disconnectFromHost s
     ({ r.1 with listener := .idle }, r.2)
   | _ => reject s
@@ -480,6 +513,7 @@ def dispatch (s : St) (e : El) : R :=
   | .idle => idleHandle s e
   | .starttls => starttlsHandle s e
   | .nonSaslFields => nonSaslHandle s e
+  | .nonSaslResult => nonSaslResultHandle s e
   | .sasl m fresh => saslHandle s m fresh e
   | .saslDead => reject s
   | .sasl2 m fresh => sasl2Handle s m fresh e
